@@ -27,6 +27,7 @@ func runC20(r *Report) {
 	c20R1(r)
 	c20R2(r)
 	c20R3(r)
+	c20R4(r)
 }
 
 // equalGuard: block b is dominated by Path.Equal(x, y) == true; returns the two operands.
@@ -444,6 +445,26 @@ func c20R2(r *Report) {
 			}
 			dedup = skip
 		}
+		// a name recorded as listed is listed: from the update of the set, the iteration does not end (next iteration,
+		// or return) without passing the append — otherwise a sub-directory whose first file is skipped for another
+		// reason (padding) is marked as seen and never shown
+		if upd != nil {
+			var head *ssa.BasicBlock
+			for _, l := range naturalLoops(rd) {
+				if l.Blocks[upd.Block()] && (head == nil || l.Blocks[head]) {
+					head = l.Head // innermost
+				}
+			}
+			isEnd := func(i ssa.Instruction) bool {
+				if _, ok := i.(*ssa.Return); ok {
+					return true
+				}
+				return head != nil && i.Block() == head && i == head.Instrs[0]
+			}
+			miss, reached := pathsMissing(upd, -1, isEnd, nil, []edgeReq{{Name: "append", Instr: func(i ssa.Instruction) bool { return i == ssa.Instruction(c) }}})
+			r.Check(reached > 0 && len(miss) == 0, "R2", "ReadDirAll/recorded-name-is-listed", upd.Pos(), "every name entered in the set of listed names is appended to the listing in the same iteration",
+				"after a name is recorded as listed the iteration can end without appending its entry: a sub-directory whose first file is skipped afterwards (a padding file) is never shown although it contains real files")
+		}
 		r.Check(dedup || sorted, "R2", "ReadDirAll/subdirectory-listed-once", c.Pos(), "a sub-directory is listed only if its name is not yet in the set of listed names",
 			"sub-directory entries are not deduplicated against every name listed so far (a membership test in a set that accumulates each listed name, or a sorted table): files of one directory that are not adjacent in the file list make it appear several times")
 	})
@@ -539,4 +560,227 @@ func c20R3(r *Report) {
 		})
 	}
 	r.Sentinel("R3", n, 4)
+}
+
+// ---------- R4: links ----------
+
+// urlBuilders: functions of package http that turn a path into a URL by calling url.PathEscape.
+func urlBuilders(p *Prog) map[*ssa.Function][]*ssa.Call {
+	out := map[*ssa.Function][]*ssa.Call{}
+	for _, f := range p.SrcFuncs() {
+		if relPkg(f) != "http" {
+			continue
+		}
+		allInstrs(f, func(in ssa.Instruction) {
+			if c, ok := in.(*ssa.Call); ok && isStdCall(c, "net/url", "", "PathEscape") {
+				out[f] = append(out[f], c)
+			}
+		})
+	}
+	return out
+}
+
+// opaqueConsumer: following v forwards through operations that keep its bytes (conversions, slicing, concatenation,
+// append/copy, strings.Join, writes into a builder, stores into local cells and slice elements) up to a return, the
+// first call that consumes it in any other way.
+func opaqueConsumer(v ssa.Value) ssa.Instruction {
+	seen := map[ssa.Value]bool{}
+	var bad ssa.Instruction
+	var walk func(v ssa.Value, d int)
+	walk = func(v ssa.Value, d int) {
+		if v == nil || seen[v] || bad != nil || d > 24 || v.Referrers() == nil {
+			return
+		}
+		seen[v] = true
+		for _, ref := range *v.Referrers() {
+			switch x := ref.(type) {
+			case *ssa.Phi, *ssa.Convert, *ssa.ChangeType, *ssa.Slice, *ssa.MakeInterface:
+				walk(x.(ssa.Value), d+1)
+			case *ssa.BinOp:
+				if x.Op == token.ADD {
+					walk(x, d+1)
+				}
+			case *ssa.Store:
+				if x.Val != v {
+					continue
+				}
+				switch a := x.Addr.(type) {
+				case *ssa.Alloc:
+					for _, r2 := range *a.Referrers() {
+						if ld, ok := r2.(*ssa.UnOp); ok && ld.Op == token.MUL {
+							walk(ld, d+1)
+						}
+					}
+				case *ssa.IndexAddr:
+					walk(a.X, d+1) // the slice the element belongs to
+				}
+			case *ssa.Call:
+				if bi, ok := x.Call.Value.(*ssa.Builtin); ok {
+					if bi.Name() == "append" {
+						walk(x, d+1)
+					}
+					continue // len, copy, …
+				}
+				switch qualName(x) {
+				case "strings.Join":
+					walk(x, d+1)
+				case "strings.Builder.WriteString", "bytes.Buffer.WriteString", "strings.Builder.Write", "bytes.Buffer.Write":
+				default:
+					if bad == nil {
+						bad = x
+					}
+				}
+			}
+		}
+	}
+	walk(v, 0)
+	return bad
+}
+
+// pathComponent: v is an element of a path-typed parameter of f (ranged over or indexed), untransformed.
+func pathComponent(v ssa.Value, f *ssa.Function, d int) bool {
+	if d > 8 {
+		return false
+	}
+	switch x := strip(v).(type) {
+	case *ssa.Parameter:
+		return x.Parent() == f
+	case *ssa.UnOp:
+		if x.Op == token.MUL {
+			if ia, ok := x.X.(*ssa.IndexAddr); ok {
+				return pathComponent(ia.X, f, d+1)
+			}
+		}
+	case *ssa.Index:
+		return pathComponent(x.X, f, d+1)
+	case *ssa.Extract:
+		if nx, ok := x.Tuple.(*ssa.Next); ok {
+			if rg, ok := nx.Iter.(*ssa.Range); ok {
+				return pathComponent(rg.X, f, d+1)
+			}
+		}
+	case *ssa.Slice:
+		return pathComponent(x.X, f, d+1)
+	case *ssa.Phi:
+		for _, e := range x.Edges {
+			if !pathComponent(e, f, d+1) {
+				return false
+			}
+		}
+		return len(x.Edges) > 0
+	}
+	return false
+}
+
+func c20R4(r *Report) {
+	p := r.P
+	bs := urlBuilders(p)
+	n := 0
+	var fs []*ssa.Function
+	for f := range bs {
+		fs = append(fs, f)
+	}
+	sortFuncs(fs)
+	for _, f := range fs {
+		r.Fn(f)
+		for _, c := range bs[f] {
+			n++
+			key := fmt.Sprintf("%s/PathEscape(%s)", fname(f), exprStr(strip(c.Call.Args[0])))
+			if !pathComponent(c.Call.Args[0], f, 0) {
+				r.Fail("R4", key+"/component-as-is", c.Pos(), "the string given to url.PathEscape is not a component of the path as it stands in the file table: the link names something else than the file")
+			} else {
+				r.Ok("R4", key+"/component-as-is", c.Pos(), "a component of the path, untransformed, is escaped")
+			}
+			if bad := opaqueConsumer(c); bad != nil {
+				r.Fail("R4", key+"/escaped-once", bad.Pos(), "the URL-escaped component is transformed again (%s) before it becomes part of the link: the link no longer decodes to the file's path — in a playlist, where the URL is plain text, an HTML-escaped `&` makes the entry unresolvable", exprStr(bad.(ssa.Value)))
+			} else {
+				r.Ok("R4", key+"/escaped-once", c.Pos(), "the escaped component reaches the result through concatenation only")
+			}
+		}
+	}
+	r.Sentinel("R4", n, 1)
+	// use sites: in a playlist the URL is written as it is; in an HTML page (an href attribute, whose value the browser
+	// entity-decodes) it is HTML-escaped exactly once
+	m3u := playlistFuncs(p)
+	isBuilderCall := func(v ssa.Value) *ssa.Call {
+		c, ok := strip(v).(*ssa.Call)
+		if !ok {
+			return nil
+		}
+		if cal := c.Call.StaticCallee(); cal != nil && bs[cal] != nil {
+			return c
+		}
+		return nil
+	}
+	nUse := 0
+	for _, f := range p.SrcFuncs() {
+		if relPkg(f) != "http" {
+			continue
+		}
+		allInstrs(f, func(in ssa.Instruction) {
+			c, ok := in.(*ssa.Call)
+			if !ok || qualName(c) != "fmt.Fprintf" || len(c.Call.Args) < 3 {
+				return
+			}
+			for _, a := range variadicElems(c.Call.Args[2]) {
+				if a == nil {
+					continue
+				}
+				v := strip(a)
+				nEsc := 0
+				for d := 0; d < 4; d++ {
+					cc, ok := v.(*ssa.Call)
+					if !ok || qualName(cc) != "html.EscapeString" {
+						break
+					}
+					nEsc++
+					v = strip(cc.Call.Args[0])
+				}
+				bc := isBuilderCall(v)
+				if bc == nil {
+					continue
+				}
+				nUse++
+				r.Fn(f)
+				key := fmt.Sprintf("%s/link(%s)", fname(f), exprStr(bc))
+				if m3u[f] {
+					r.Check(nEsc == 0, "R4", key+"/plain-in-playlist", c.Pos(), "the URL is written to the playlist as built", "the URL written to the playlist is HTML-escaped: players read the line verbatim and request a path that does not exist")
+				} else {
+					r.Check(nEsc == 1, "R4", key+"/html-escaped-in-page", c.Pos(), "the URL is HTML-escaped once where it is placed in the page",
+						fmt.Sprintf("the URL placed in the page's href is HTML-escaped %d times instead of once: url.PathEscape leaves `&` as it is and the browser entity-decodes attribute values, so the link of a file whose name contains a character reference (\"Tom &amp; Jerry.mkv\") names a different, absent file", nEsc))
+				}
+			}
+		})
+	}
+	r.Sentinel("R4.uses", nUse, 3)
+}
+
+// playlistFuncs: functions of package http that write a playlist (they set the mpegurl content type), and the package
+// functions taking the ResponseWriter that they call.
+func playlistFuncs(p *Prog) map[*ssa.Function]bool {
+	m3u := map[*ssa.Function]bool{}
+	for _, f := range p.SrcFuncs() {
+		if relPkg(f) != "http" {
+			continue
+		}
+		allInstrs(f, func(in ssa.Instruction) {
+			c, ok := in.(*ssa.Call)
+			if !ok {
+				return
+			}
+			for _, a := range c.Call.Args {
+				if s, oks := constString(a); oks && strings.Contains(s, "mpegurl") {
+					m3u[f] = true
+				}
+			}
+		})
+	}
+	for f := range m3u {
+		allInstrs(f, func(in ssa.Instruction) {
+			if cal := calleeOf(in); cal != nil && relPkg(cal) == "http" && len(cal.Params) > 0 && typeIs(cal.Params[0].Type(), "net/http", "ResponseWriter") {
+				m3u[cal] = true
+			}
+		})
+	}
+	return m3u
 }
